@@ -151,13 +151,14 @@ def relations_part(ck, tier):
     # the spec predicts which cases the real matcher refuses; those are compiled alone
     alone = [c for c in cases if spec[c["id"]]["raises"]]
     rest = [c for c in cases if not spec[c["id"]]["raises"]]
-    if tier == "quick":  # one compile per refused case is slow: keep a seeded sample of each kind
+    if True:  # one compile per refused case is slow: keep a seeded sample of each kind
         import random as _r
 
         rnd = _r.Random(seed() + 11)
         sat = [c for c in alone if not spec[c["id"]]["unsat"]]
         uns = [c for c in alone if spec[c["id"]]["unsat"]]
-        alone = rnd.sample(sat, min(12, len(sat))) + rnd.sample(uns, min(24, len(uns)))
+        nsat, nuns = (12, 24) if tier == "quick" else (len(sat), 300)
+        alone = rnd.sample(sat, min(nsat, len(sat))) + rnd.sample(uns, min(nuns, len(uns)))
         keep = {c["id"] for c in alone} | {c["id"] for c in rest}
         cases = [c for c in cases if c["id"] in keep]
     batches = [rest[i:i + 40] for i in range(0, len(rest), 40)] + [[c] for c in alone]
@@ -237,7 +238,7 @@ def relations_part(ck, tier):
             effective = any(s["hull"][0] <= v <= s["hull"][1] and not (lo * 2 - 1e-6 <= v <= hi * 2 + 1e-6) for v in (-3, 3))
         # quick: one program per (quantity, explanation, one/two-sided form); thorough: per form and operators
         cls = (c["q"], explained, c["form"] == "cQc") if tier == "quick" else (c["q"], c["form"], tuple(c["ops"]), explained)
-        if effective and c.get("atom", "unary") == "unary" and seen_class.get(cls, 0) < (1 if tier == "quick" else 2):
+        if effective and c.get("atom", "unary") == "unary" and seen_class.get(cls, 0) < 1:
             seen_class[cls] = seen_class.get(cls, 0) + 1
             pairing.append((c, [lo, hi]))
     ck.cov["relations"] = stats
@@ -471,17 +472,24 @@ def lattice_part(ck, tier, pairing):
 
         # ---- compile outcomes
         if rr["err_unpruned"]:
-            if rr["err_unpruned"].startswith("InconsistentScenarioError") and satisfiable:
-                ck.violation(f"satisfiable lattice program {p['id']} refused: {rr['err_unpruned']}",
-                             dict(base_replay, error=rr["err_unpruned"]),
-                             known_key=KEY_NONEQ if KEY_NONEQ in trig_keys else None)
+            refusal = rr["err_unpruned"].split(":")[0] in ("InconsistentScenarioError", "InvalidScenarioError")
+            if refusal and satisfiable:
+                t0_ = next(iter(so.values()))["trig"]
+                known = KEY_NONHARD if t0_["refuseNonhard"] else KEY_NONEQ if t0_["refuseNoneq"] else None
+                ck.case(("prog", text), True)
+                ck.violation(f"satisfiable lattice program {p['id']} refused (with and without pruning): {rr['err_unpruned']}",
+                             dict(base_replay, error=rr["err_unpruned"], as_implemented_deviation=known), known_key=known)
+            elif refusal:
+                tot["refused_unsat"] += 1  # the spec says no scene exists: refusing is allowed
+                ck.case(("prog", text), False)
+                ck.validated()
             else:
                 tot["dropped"] += 1
                 ck.cov["dropped_by_generator"] += 1
                 dropped_why.append([p["id"], p["fam"], "does not compile without pruning either: " + rr["err_unpruned"][:120]])
             continue
         if rr["err_pruned"]:
-            if rr["err_pruned"] == "TIMEOUT" or False:
+            if rr["err_pruned"] == "TIMEOUT":
                 ck.violation(f"compiling lattice program {p['id']} with pruning did not return within {COMPILE_GUARD_S}s "
                              f"(unpruned: {rr['t_unpruned']}s)", dict(base_replay, times=[rr["t_unpruned"], rr["t_pruned"]]))
                 continue
@@ -497,7 +505,8 @@ def lattice_part(ck, tier, pairing):
                     inbase = [c for row in o["rows"] for c in row if _bit(c, 1)]
                     if inbase and all(_bit(c, bit) for c in inbase):
                         keys.add(key)
-            keys.discard("combined") if len(keys) > 1 else None
+            if len(keys) > 1:
+                keys.discard("combined")
             known = None
             if keys:
                 k0 = sorted(keys)[0]
